@@ -25,6 +25,11 @@ impl GaloisTool {
         }
     }
 
+    #[cfg(feature = "verif-hooks")]
+    pub fn verif_tables(&self) -> Vec<Vec<usize>> {
+        self.permutation_tables.read().unwrap().clone()
+    }
+
     pub fn generate_table_ntt(&self, galois_elt: usize) -> Vec<usize> {
         let coeff_count = self.coeff_count;
         let mut result = vec![0; coeff_count];
@@ -144,10 +149,14 @@ impl GaloisTool {
             let tables = self.permutation_tables.read().unwrap();
             (*tables)[index].is_empty()
         };
+        #[cfg(feature = "verif-hooks")]
+        if need_to_generate { crate::verif_hooks::yield_point("gal.checked"); }
         if need_to_generate {
             let mut tables = self.permutation_tables.write().unwrap();
             (*tables)[index] = self.generate_table_ntt(galois_elt);
         }
+        #[cfg(feature = "verif-hooks")]
+        if need_to_generate { crate::verif_hooks::yield_point("gal.generated"); }
 
         // Acquire read
         let reader = self.permutation_tables.read().unwrap();
